@@ -94,6 +94,13 @@ theorem invP_step (s : State) (op : Op) (h : InvP s) : InvP (step s op) := by
     obtain ⟨c0, hc0, rfl | rfl⟩ := mem_onConn hc
     · exact connP_checkPersisted _ _ _ _ _ _ (h.conns c0 hc0)
     · exact h.conns _ hc0
+  | request id n ver cl ka ch ln =>
+    intro c hc
+    obtain ⟨c0, hc0, rfl | rfl⟩ := mem_onConn hc
+    · split
+      · exact h.conns c0 hc0
+      · exact connP_checkPersisted _ _ _ _ _ _ (connP_moved _ _ _ (h.conns c0 hc0))
+    · exact h.conns _ hc0
 
 theorem invP_run (s : State) (ops : List Op) (h : InvP s) : InvP (run s ops) := by
   induction ops generalizing s with
@@ -171,6 +178,14 @@ theorem invT_step (s : State) (op : Op) (hr : refreshes s = true) (hp : InvP s) 
     intro c hc
     obtain ⟨c0, hc0, rfl | rfl⟩ := mem_onConn hc
     · exact connT_checkPersisted _ _ _ _ _ _ (h.conns c0 hc0)
+    · exact h.conns _ hc0
+  | request id n ver cl ka ch ln =>
+    refine ⟨?_, h.log⟩
+    intro c hc
+    obtain ⟨c0, hc0, rfl | rfl⟩ := mem_onConn hc
+    · split
+      · exact h.conns c0 hc0
+      · simp only [hr]; exact connT_checkPersisted _ _ _ _ _ _ (connT_moved c0 (h.conns c0 hc0))
     · exact h.conns _ hc0
 
 theorem invT_run (s : State) (ops : List Op) (hr : refreshes s = true) (hp : InvP s) (h : InvT s) :
